@@ -1,6 +1,670 @@
-//! C20 — not built yet.
-use vcommon::Args;
+//! C20 — message streams deliver every matching message once, in order; equal rules share one
+//! subscription that lives until the last stream for it is dropped.
+//!
+//! Part A (E-bfs): the full tree of operation histories (create / clone / drop / inbound message /
+//! poll) up to a depth, every history executed on a real connection, compared with a list model.
+//! Part B (E-sched): consumers as tasks, small queue capacities (back-pressure on the socket
+//! reader), fan-out order rotations, all schedules up to a deviation bound.
 
-pub fn main(_args: &Args) -> i32 {
-    vcommon::machinery_failure("C20: check not built yet")
+use std::sync::Mutex;
+
+use futures_lite::StreamExt;
+use serde_json::{json, Value as J};
+use vcommon::{hash64, Args, Report, Tier, Violation};
+use zbus::{connection::Builder, Connection, MatchRule, Message, MessageStream};
+
+use crate::{
+    explore::ExecResult,
+    sched::{finish_model_checking, run_scenario, v, SchedPlan, Totals},
+    world::{Handle, Link, SockCfg, Step, World, GUID},
+};
+
+#[derive(Clone, Copy, Debug, PartialEq, Eq, Hash, PartialOrd, Ord)]
+enum Op {
+    /// 0 = rule R1 (interface a.b, member S1), 1 = rule R2 (interface a.b), 2 = unfiltered
+    Create(u8),
+    Clone(u8),
+    Drop(u8),
+    /// 0 = S1 (matches R1 and R2), 1 = S2 (matches R2), 2 = X on c.d (matches neither)
+    Msg(u8),
+    Poll(u8),
 }
+
+fn rule(k: u8) -> Option<MatchRule<'static>> {
+    match k {
+        0 => Some(
+            MatchRule::builder()
+                .msg_type(zbus::message::Type::Signal)
+                .interface("a.b")
+                .unwrap()
+                .member("S1")
+                .unwrap()
+                .build(),
+        ),
+        1 => Some(
+            MatchRule::builder()
+                .msg_type(zbus::message::Type::Signal)
+                .interface("a.b")
+                .unwrap()
+                .build(),
+        ),
+        _ => None,
+    }
+}
+
+fn matches(kind: u8, msg: u8) -> bool {
+    match kind {
+        0 => msg == 0,
+        1 => msg == 0 || msg == 1,
+        _ => true,
+    }
+}
+
+fn mk_msg(k: u8, n: u32) -> Message {
+    match k {
+        0 => Message::signal("/p", "a.b", "S1").unwrap().build(&(n,)).unwrap(),
+        1 => Message::signal("/p", "a.b", "S2").unwrap().build(&(n,)).unwrap(),
+        _ => Message::signal("/p", "c.d", "X").unwrap().build(&(n,)).unwrap(),
+    }
+}
+
+/// Reference model of one stream.
+#[derive(Clone, Debug)]
+struct MStream {
+    kind: u8,
+    alive: bool,
+    /// ids of messages that arrived while subscribed (must be yielded, in order)
+    required: Vec<u32>,
+    /// ids that arrived before this stream existed but may legitimately still be queued for it
+    /// (a clone starts at its original's read position)
+    optional_before: Vec<u32>,
+    is_clone: bool,
+}
+
+#[derive(Clone, Debug, Default)]
+struct Model {
+    streams: Vec<MStream>,
+    msgs: Vec<u8>, // kind by id
+    /// a clone of a stream with this rule kind was dropped while another stream with the same
+    /// rule was alive
+    clone_dropped_while_shared: bool,
+    any_clone: bool,
+}
+
+impl Model {
+    fn apply(&mut self, op: Op, unyielded: &dyn Fn(usize) -> Vec<u32>) {
+        match op {
+            Op::Create(k) => self.streams.push(MStream {
+                kind: k,
+                alive: true,
+                required: vec![],
+                optional_before: vec![],
+                is_clone: false,
+            }),
+            Op::Clone(i) => {
+                let src = self.streams[i as usize].clone();
+                self.any_clone = true;
+                self.streams.push(MStream {
+                    kind: src.kind,
+                    alive: true,
+                    required: vec![],
+                    optional_before: unyielded(i as usize),
+                    is_clone: true,
+                });
+            }
+            Op::Drop(i) => {
+                let s = &self.streams[i as usize];
+                let kind = s.kind;
+                let shared = self
+                    .streams
+                    .iter()
+                    .enumerate()
+                    .any(|(j, o)| j != i as usize && o.alive && o.kind == kind);
+                if shared && kind != 2 && (s.is_clone || self.streams.iter().any(|o| o.is_clone && o.kind == kind)) {
+                    self.clone_dropped_while_shared = true;
+                }
+                self.streams[i as usize].alive = false;
+            }
+            Op::Msg(k) => {
+                let id = self.msgs.len() as u32;
+                self.msgs.push(k);
+                for s in self.streams.iter_mut() {
+                    if s.alive && matches(s.kind, k) {
+                        s.required.push(id);
+                    }
+                }
+            }
+            Op::Poll(_) => {}
+        }
+    }
+    fn enabled(&self, max_streams: usize, max_msgs: usize) -> Vec<Op> {
+        let mut v = vec![];
+        let total = self.streams.len();
+        if total < max_streams {
+            for k in 0..3 {
+                v.push(Op::Create(k));
+            }
+            for (i, s) in self.streams.iter().enumerate() {
+                if s.alive {
+                    v.push(Op::Clone(i as u8));
+                }
+            }
+        }
+        for (i, s) in self.streams.iter().enumerate() {
+            if s.alive {
+                v.push(Op::Drop(i as u8));
+            }
+        }
+        if self.msgs.len() < max_msgs {
+            for k in 0..3 {
+                v.push(Op::Msg(k));
+            }
+        }
+        for (i, s) in self.streams.iter().enumerate() {
+            if s.alive && !s.required.is_empty() {
+                v.push(Op::Poll(i as u8));
+            }
+        }
+        v
+    }
+}
+
+fn msg_id(m: &Message) -> u32 {
+    m.body().deserialize::<(u32,)>().map(|t| t.0).unwrap_or(u32::MAX)
+}
+
+struct RunOut {
+    yielded: Vec<Vec<u32>>,
+    ended: Vec<bool>,
+    errors: Vec<String>,
+    panic: Option<String>,
+}
+
+async fn drain(s: &mut MessageStream, out: &mut Vec<u32>, ended: &mut bool) {
+    loop {
+        match futures_lite::future::poll_once(s.next()).await {
+            Some(Some(Ok(m))) => out.push(msg_id(&m)),
+            Some(Some(Err(_))) => out.push(u32::MAX - 1),
+            Some(None) => {
+                *ended = true;
+                break;
+            }
+            None => break,
+        }
+        if out.len() > 64 {
+            break;
+        }
+    }
+}
+
+fn run_history(hist: &[Op], cap: usize) -> (RunOut, Model) {
+    let mut model = Model::default();
+    let r = vcommon::catch(|| {
+        let mut w = World::new();
+        let link = Link::new();
+        let sock = link.end_a(SockCfg::default());
+        let conn: Connection = w
+            .complete("build", async move {
+                Builder::authenticated_socket(sock, GUID)
+                    .unwrap()
+                    .p2p()
+                    .internal_executor(false)
+                    .build()
+                    .await
+                    .unwrap()
+            })
+            .expect("build");
+        let mut streams: Vec<Option<MessageStream>> = vec![];
+        let mut yielded: Vec<Vec<u32>> = vec![];
+        let mut ended: Vec<bool> = vec![];
+        let mut errors = vec![];
+        let mut m = Model::default();
+        for op in hist {
+            {
+                let y = &yielded;
+                let mm = m.clone();
+                m.apply(*op, &|i| {
+                    mm.streams[i]
+                        .required
+                        .iter()
+                        .chain(mm.streams[i].optional_before.iter())
+                        .filter(|id| !y[i].contains(id))
+                        .cloned()
+                        .collect()
+                });
+            }
+            match *op {
+                Op::Create(k) => {
+                    let c = conn.clone();
+                    let s = w.complete("create", async move {
+                        match rule(k) {
+                            Some(r) => MessageStream::for_match_rule(r, &c, Some(cap)).await,
+                            None => Ok(MessageStream::from(&c)),
+                        }
+                    });
+                    match s {
+                        Some(Ok(s)) => streams.push(Some(s)),
+                        Some(Err(e)) => {
+                            errors.push(format!("create: {e}"));
+                            streams.push(None)
+                        }
+                        None => {
+                            errors.push("create did not complete".into());
+                            streams.push(None)
+                        }
+                    }
+                    yielded.push(vec![]);
+                    ended.push(false);
+                }
+                Op::Clone(i) => {
+                    let c = streams[i as usize].as_ref().map(|s| s.clone());
+                    streams.push(c);
+                    yielded.push(vec![]);
+                    ended.push(false);
+                    w.settle();
+                }
+                Op::Drop(i) => {
+                    streams[i as usize] = None;
+                    w.settle();
+                }
+                Op::Msg(k) => {
+                    let id = (m.msgs.len() - 1) as u32;
+                    link.b2a.push(mk_msg(k, id).data().bytes(), vec![]);
+                    w.settle();
+                }
+                Op::Poll(i) => {
+                    if let Some(mut s) = streams[i as usize].take() {
+                        let mut out = vec![];
+                        let mut e = false;
+                        let r = w.complete("poll", async move {
+                            drain(&mut s, &mut out, &mut e).await;
+                            (s, out, e)
+                        });
+                        if let Some((s, out, e)) = r {
+                            streams[i as usize] = Some(s);
+                            yielded[i as usize].extend(out);
+                            ended[i as usize] |= e;
+                        }
+                    }
+                }
+            }
+        }
+        // final: keep polling every live stream until nothing moves
+        for _ in 0..8 {
+            let mut progress = false;
+            for i in 0..streams.len() {
+                if let Some(mut s) = streams[i].take() {
+                    let mut out = vec![];
+                    let mut e = false;
+                    let r = w.complete("final-poll", async move {
+                        drain(&mut s, &mut out, &mut e).await;
+                        (s, out, e)
+                    });
+                    if let Some((s, out, e)) = r {
+                        streams[i] = Some(s);
+                        progress |= !out.is_empty();
+                        yielded[i].extend(out);
+                        ended[i] |= e;
+                    }
+                }
+            }
+            w.settle();
+            if !progress {
+                break;
+            }
+        }
+        drop(streams);
+        drop(conn);
+        (yielded, ended, errors, m)
+    });
+    match r {
+        Ok((yielded, ended, errors, m)) => {
+            model = m;
+            (
+                RunOut {
+                    yielded,
+                    ended,
+                    errors,
+                    panic: None,
+                },
+                model,
+            )
+        }
+        Err(p) => (
+            RunOut {
+                yielded: vec![],
+                ended: vec![],
+                errors: vec![],
+                panic: Some(format!("{p} at {}", vcommon::last_panic_location())),
+            },
+            model,
+        ),
+    }
+}
+
+fn judge(hist: &[Op], out: &RunOut, model: &Model, report: &Report, cap: usize) {
+    let case = json!({"history": hist.iter().map(|o| format!("{o:?}")).collect::<Vec<_>>(), "cap": cap});
+    let mk = |clause: &str, detail: String| {
+        Violation::new(clause, detail, case.clone())
+            .feat("clone_dropped_while_rule_shared", model.clone_dropped_while_shared)
+    };
+    if let Some(p) = &out.panic {
+        report.outcome("panic");
+        report.violation(mk("no-panic", format!("panic: {p}; history {case}")));
+        return;
+    }
+    if !out.errors.is_empty() {
+        report.violation(mk("stream-creation", format!("{:?}; history {case}", out.errors)));
+    }
+    let mut ok = true;
+    for (i, s) in model.streams.iter().enumerate() {
+        if !s.alive {
+            continue;
+        }
+        let y = &out.yielded[i];
+        // required ⊆ yielded, in order, once; everything yielded matches the rule and is known
+        let mut dup = false;
+        for (a, id) in y.iter().enumerate() {
+            if y[..a].contains(id) {
+                dup = true;
+            }
+        }
+        let allowed: Vec<u32> = s.optional_before.iter().chain(s.required.iter()).cloned().collect();
+        let extra: Vec<u32> = y.iter().filter(|id| !allowed.contains(id)).cloned().collect();
+        let missing: Vec<u32> = s.required.iter().filter(|id| !y.contains(id)).cloned().collect();
+        let order_ok = {
+            let mut sorted = y.clone();
+            sorted.sort();
+            sorted == *y
+        };
+        if dup {
+            ok = false;
+            report.violation(mk("exactly-once", format!("stream {i} yielded a message twice: {y:?}; history {case}")));
+        }
+        if !extra.is_empty() {
+            ok = false;
+            report.violation(mk(
+                "only-matching-messages",
+                format!("stream {i} (rule kind {}) yielded {extra:?} which do not match its rule / were never sent; history {case}", s.kind),
+            ));
+        }
+        if !missing.is_empty() {
+            ok = false;
+            report.violation(mk(
+                "every-matching-message",
+                format!(
+                    "stream {i} (rule kind {}) never yielded {missing:?} (yielded {y:?}, ended={}) although it was subscribed when they arrived and was polled to quiescence; history {case}",
+                    s.kind, out.ended[i]
+                ),
+            ));
+        }
+        if !order_ok {
+            ok = false;
+            report.violation(mk("arrival-order", format!("stream {i} yielded out of arrival order: {y:?}; history {case}")));
+        }
+    }
+    report.outcome(if ok { "delivered-as-model" } else { "deviates" });
+}
+
+fn histories(depth: usize, max_streams: usize, max_msgs: usize) -> Vec<Vec<Op>> {
+    let mut out = vec![];
+    fn rec(h: &mut Vec<Op>, m: &Model, depth: usize, ms: usize, mm: usize, out: &mut Vec<Vec<Op>>) {
+        // only histories that deliver at least one message are worth running
+        if h.iter().any(|o| matches!(o, Op::Msg(_))) {
+            out.push(h.clone());
+        }
+        if h.len() == depth {
+            return;
+        }
+        for op in m.enabled(ms, mm) {
+            let mut m2 = m.clone();
+            m2.apply(op, &|_| vec![]);
+            h.push(op);
+            rec(h, &m2, depth, ms, mm, out);
+            h.pop();
+        }
+    }
+    rec(&mut vec![], &Model::default(), depth, max_streams, max_msgs, &mut out);
+    out
+}
+
+// ---------------------------------------------------------------------------------------------
+// Part B: schedules with back-pressure
+// ---------------------------------------------------------------------------------------------
+
+#[derive(Clone, Copy, Debug)]
+struct SParams {
+    cap: usize,
+    n_msgs: usize,
+    rotation: usize,
+    with_unfiltered: bool,
+}
+
+fn sched_scenario(p: SParams) -> ExecResult {
+    let mut w = World::new();
+    w.horizon = 400;
+    zbus::verif::set_fanout_rotation(p.rotation);
+    let link = Link::new();
+    let sock = link.end_a(SockCfg::default());
+    let conn: Connection = w
+        .complete("build", async move {
+            Builder::authenticated_socket(sock, GUID)
+                .unwrap()
+                .p2p()
+                .internal_executor(false)
+                .build()
+                .await
+                .unwrap()
+        })
+        .expect("build");
+    // two rule streams + optionally the unfiltered one, created before any message
+    let kinds: Vec<u8> = if p.with_unfiltered { vec![0, 1, 2] } else { vec![0, 1] };
+    let mut consumers: Vec<(u8, Handle<Vec<u32>>)> = vec![];
+    let events: std::sync::Arc<Mutex<Vec<String>>> = Default::default();
+    let cap = p.cap;
+    let mut streams = vec![];
+    for k in &kinds {
+        let c = conn.clone();
+        let k = *k;
+        let s = w
+            .complete("create", async move {
+                match rule(k) {
+                    Some(r) => MessageStream::for_match_rule(r, &c, Some(cap)).await.unwrap(),
+                    None => {
+                        let mut s = MessageStream::from(&c);
+                        let _ = &mut s;
+                        s
+                    }
+                }
+            })
+            .expect("create");
+        streams.push((k, s));
+    }
+    // message kinds sent: alternate S1, S2, S1, ...
+    let sent: Vec<u8> = (0..p.n_msgs).map(|i| (i % 2) as u8).collect();
+    for (k, mut s) in streams {
+        let want = sent.iter().filter(|m| matches(k, **m)).count();
+        let ev = events.clone();
+        consumers.push((
+            k,
+            w.spawn(&format!("consumer-kind{k}"), async move {
+                let mut got = vec![];
+                while got.len() < want {
+                    match s.next().await {
+                        Some(Ok(m)) => {
+                            ev.lock().unwrap().push(format!("kind{k} <- {}", msg_id(&m)));
+                            got.push(msg_id(&m))
+                        }
+                        Some(Err(_)) => got.push(u32::MAX - 1),
+                        None => break,
+                    }
+                }
+                // keep the stream alive until the end of the execution
+                std::mem::forget(s);
+                got
+            }),
+        ));
+    }
+    let mut next = 0usize;
+    loop {
+        let env = (next < sent.len()) as usize;
+        match w.step(env) {
+            Step::Ran(_) => {}
+            Step::Env(_) => {
+                link.b2a.push(mk_msg(sent[next], next as u32).data().bytes(), vec![]);
+                events.lock().unwrap().push(format!("inbound {next}"));
+                next += 1;
+            }
+            _ => break,
+        }
+    }
+    let mut res = ExecResult {
+        capped: w.hit_horizon,
+        steps: w.steps,
+        ..Default::default()
+    };
+    for (k, h) in &consumers {
+        let want: Vec<u32> = sent
+            .iter()
+            .enumerate()
+            .filter(|(_, m)| matches(*k, **m))
+            .map(|(i, _)| i as u32)
+            .collect();
+        match h.take() {
+            Some(got) => {
+                w.obs(format!("kind{k} got {got:?}"));
+                if got != want {
+                    res.violations.push(
+                        v("every-matching-message", format!("consumer of rule kind {k} got {got:?}, expected {want:?}"))
+                            .feat("clone_dropped_while_rule_shared", false)
+                            .feat("sched", true),
+                    );
+                }
+            }
+            None => {
+                if !w.hit_horizon && next == sent.len() {
+                    res.violations.push(
+                        v("every-matching-message", format!("consumer of rule kind {k} is stuck although all {} messages were delivered to the socket and it keeps polling; trace={:?}", sent.len(), w.trace))
+                            .feat("clone_dropped_while_rule_shared", false)
+                            .feat("sched", true),
+                    );
+                }
+            }
+        }
+    }
+    res.log = events.lock().unwrap().clone();
+    res.log.extend(std::mem::take(&mut w.log));
+    drop(conn);
+    res
+}
+
+pub fn main(args: &Args) -> i32 {
+    if let Some(p) = &args.replay {
+        let j = vcommon::load_replay(p);
+        let case = if j["replay"]["case"].is_null() { &j["replay"] } else { &j["replay"]["case"] };
+        println!("replay of {case}");
+        if let Some(h) = case["history"].as_array() {
+            let hist: Vec<Op> = h.iter().map(|s| parse_op(s.as_str().unwrap())).collect();
+            let cap = case["cap"].as_u64().unwrap_or(2) as usize;
+            let (out, model) = run_history(&hist, cap);
+            for (i, s) in model.streams.iter().enumerate() {
+                println!(
+                    "stream {i}: kind={} alive={} required={:?} yielded={:?} ended={:?}",
+                    s.kind,
+                    s.alive,
+                    s.required,
+                    out.yielded.get(i),
+                    out.ended.get(i)
+                );
+            }
+            println!("panic={:?} errors={:?}", out.panic, out.errors);
+        }
+        return 0;
+    }
+    let report = Report::new("C20", args.tier, args.seed, "model_checking");
+    // Part A
+    let depth = args.tier.pick(5, 6);
+    let hs = histories(depth, 3, 3);
+    // capacity ≥ number of messages: no back-pressure in part A, so a message *arrives* (is read by
+    // the socket reader) in the step that delivers it; back-pressure is part B's subject
+    let caps: Vec<usize> = vec![4];
+    let n = hs.len() * caps.len();
+    let transitions = Mutex::new(0u64);
+    let states = Mutex::new(std::collections::BTreeSet::new());
+    vcommon::par_for(n, 32, |idx| {
+        let h = &hs[idx / caps.len()];
+        let cap = caps[idx % caps.len()];
+        let (out, model) = run_history(h, cap);
+        report.eval(1);
+        judge(h, &out, &model, &report, cap);
+        *transitions.lock().unwrap() += h.len() as u64;
+        let st = hash64(&(format!("{:?}", model.streams.iter().map(|s| (s.kind, s.alive, &s.required)).collect::<Vec<_>>()), &out.yielded));
+        states.lock().unwrap().insert(st);
+        if h.iter().any(|o| matches!(o, Op::Clone(_) | Op::Drop(_))) {
+            report.nontrivial(hash64(&(h, cap)));
+        }
+    });
+    report.sample(json!({"history": hs[hs.len() / 2].iter().map(|o| format!("{o:?}")).collect::<Vec<_>>()}));
+    report.sample(json!({"history": hs[hs.len() - 1].iter().map(|o| format!("{o:?}")).collect::<Vec<_>>()}));
+    let bfs_execs = report.evaluations();
+    let bfs_states = states.lock().unwrap().len() as u64;
+    let bfs_transitions = *transitions.lock().unwrap();
+    // Part B
+    let totals = Mutex::new(Totals::default());
+    let quick = args.tier == Tier::Quick;
+    for (name, p) in [
+        ("backpressure-cap1", SParams { cap: 1, n_msgs: 4, rotation: 0, with_unfiltered: false }),
+        ("backpressure-cap1-rot1", SParams { cap: 1, n_msgs: 4, rotation: 1, with_unfiltered: false }),
+        ("backpressure-cap1-rot2", SParams { cap: 1, n_msgs: 3, rotation: 2, with_unfiltered: true }),
+        ("backpressure-cap2-unfiltered", SParams { cap: 2, n_msgs: 4, rotation: 3, with_unfiltered: true }),
+    ] {
+        let plan = SchedPlan {
+            bounds: if quick { vec![Some(2), Some(3), Some(4)] } else { vec![Some(3), Some(4), Some(5), Some(6)] },
+            max_execs: args.tier.pick(2_000_000, 50_000_000),
+            time_budget_s: args.tier.pick(5.0, 120.0),
+        };
+        run_scenario(
+            &report,
+            &totals,
+            name,
+            json!({"cap": p.cap, "n_msgs": p.n_msgs, "rotation": p.rotation, "with_unfiltered": p.with_unfiltered}),
+            &plan,
+            move || sched_scenario(p),
+        );
+    }
+    {
+        let mut t = totals.lock().unwrap();
+        t.execs += bfs_execs;
+        t.states += bfs_states;
+        t.transitions += bfs_transitions;
+        t.distinct_logs += bfs_states;
+        t.scenarios.push(json!({"part": "A: full history tree", "depth": depth, "histories": hs.len(), "queue_capacities": caps,
+            "alphabet": "create(R1|R2|unfiltered), clone(i), drop(i), inbound(S1|S2|X), poll(i); ≤3 streams, ≤3 messages; only histories with ≥1 message",
+            "executions": bfs_execs, "distinct_model_state_and_observation": bfs_states}));
+    }
+    report.assume("p2p connection (no AddMatch traffic; bus-side registrations are C37)");
+    report.assume("a clone starts at its original's read position, so messages still queued for the original may legitimately reach the clone too (allowed, not required)");
+    finish_model_checking(
+        &report,
+        &totals,
+        "A: every history of ≤depth operations over the alphabet, each op run to quiescence on the default schedule, streams drained at the end; B: consumer tasks with queue capacity 1–2 and rotated fan-out order under all schedules up to the completed deviation bound",
+    )
+}
+
+fn parse_op(s: &str) -> Op {
+    let n: u8 = s.chars().filter(|c| c.is_ascii_digit()).collect::<String>().parse().unwrap_or(0);
+    if s.starts_with("Create") {
+        Op::Create(n)
+    } else if s.starts_with("Clone") {
+        Op::Clone(n)
+    } else if s.starts_with("Drop") {
+        Op::Drop(n)
+    } else if s.starts_with("Msg") {
+        Op::Msg(n)
+    } else {
+        Op::Poll(n)
+    }
+}
+
+#[allow(unused)]
+fn unused(_: J) {}
